@@ -138,7 +138,7 @@ fn main() {
         }
         i += 1;
     }
-    let ctx = Ctx { tier, seed, workers, budget_s: if tier == Tier::Quick { 50.0 } else { 1500.0 } };
+    let ctx = Ctx { tier, seed, workers, budget_s: if tier == Tier::Quick { 45.0 } else { 1800.0 }, scenario_cap_s: 10.0 };
     match args[1].as_str() {
         #[cfg(feature = "sched")]
         "selftest" => {
